@@ -34,6 +34,7 @@ LEAN_T = {'int': 'Int', 'bytes': 'List UInt8', 'listint': 'List Int', 'bool': 'B
           'entry': '(List UInt8 × List UInt8)', 'listentry': 'List (List UInt8 × List UInt8)',
           'triple': '(Int × Int × Int)', 'listtriple': 'List (Int × Int × Int)',
           'header': 'Py.Header', 'listheader': 'List Py.Header', 'none': 'Unit',
+          'hexstr': 'List Nat',
           'valmap': 'List (List UInt8 × Int)', 'mapentry': '(Int × List (List UInt8 × Int))',
           'staticmap': 'List (List UInt8 × (Int × List (List UInt8 × Int)))'}
 
@@ -197,6 +198,49 @@ def expr(e, env, cx, expect=None):
     if isinstance(e, (ast.Compare, ast.BoolOp)) or (isinstance(e, ast.UnaryOp) and isinstance(e.op, ast.Not)):
         b, c = cond(e, env, cx)
         return b, '(decide %s)' % c, 'bool'
+    # hex(n)[2:].rstrip("L"): the hexadecimal digits of a non-negative integer, most significant first
+    if isinstance(e, ast.Call) and isinstance(e.func, ast.Attribute) and e.func.attr == 'rstrip' and len(e.args) == 1 \
+            and isinstance(e.args[0], ast.Constant) and e.args[0].value == 'L' and isinstance(e.func.value, ast.Subscript) \
+            and isinstance(e.func.value.slice, ast.Slice) and isinstance(e.func.value.slice.lower, ast.Constant) \
+            and e.func.value.slice.lower.value == 2 and e.func.value.slice.upper is None \
+            and isinstance(e.func.value.value, ast.Call) and isinstance(e.func.value.value.func, ast.Name) and e.func.value.value.func.id == 'hex':
+        b, t, ty = expr(e.func.value.value.args[0], env, cx)
+        if ty != 'int':
+            raise Unsupported('hex of ' + ty)
+        tt = cx.fresh()
+        return b + [B(cx, tt, 'Py.hexDigits %s' % t)], tt, 'hexstr'
+    if isinstance(e, ast.Call) and isinstance(e.func, ast.Attribute) and e.func.attr == 'fromhex' and isinstance(e.func.value, ast.Name) \
+            and e.func.value.id == 'bytes' and len(e.args) == 1:
+        b, t, ty = expr(e.args[0], env, cx)
+        if ty != 'hexstr':
+            raise Unsupported('fromhex of ' + ty)
+        tt = cx.fresh()
+        return b + [B(cx, tt, 'Py.fromHex %s' % t)], tt, 'bytes'
+    if isinstance(e, ast.BinOp) and isinstance(e.op, ast.Add) and isinstance(e.left, ast.Constant) and e.left.value == '0':
+        b, t, ty = expr(e.right, env, cx)
+        if ty == 'hexstr':
+            return b, '(0 :: %s)' % t, 'hexstr'
+    if isinstance(e, ast.BinOp) and isinstance(e.op, ast.Add) and isinstance(e.left, ast.BinOp) and isinstance(e.left.op, ast.Mult) \
+            and isinstance(e.left.left, ast.Constant) and e.left.left.value == '0':
+        bn, tn, tyn = expr(e.left.right, env, cx)
+        b, t, ty = expr(e.right, env, cx)
+        if ty == 'hexstr' and tyn == 'int':
+            return bn + b, '(List.replicate (%s).toNat 0 ++ %s)' % (tn, t), 'hexstr'
+    if isinstance(e, ast.BinOp) and isinstance(e.op, (ast.Pow, ast.Mod, ast.FloorDiv)):
+        b1, t1, ty1 = expr(e.left, env, cx)
+        b2, t2, ty2 = expr(e.right, env, cx)
+        if ty1 == 'int' and ty2 == 'int':
+            tt = cx.fresh()
+            fn = {'Pow': 'ipow', 'Mod': 'imod', 'FloorDiv': 'ifloordiv'}[type(e.op).__name__]
+            return b1 + b2 + [B(cx, tt, 'Py.%s %s %s' % (fn, t1, t2))], tt, 'int'
+    # self.<list field>[i]
+    if isinstance(e, ast.Subscript) and _is_self_attr(e.value) and cx.cls and cx.cls['fields'].get(e.value.attr) == 'listint' \
+            and not isinstance(e.slice, ast.Slice):
+        bi, ti, tyi = expr(e.slice, env, cx)
+        if tyi != 'int':
+            raise Unsupported('subscript with ' + tyi)
+        tt = cx.fresh()
+        return bi + [B(cx, tt, 'Py.listGet self.%s %s' % (fname_(e.value.attr), ti))], tt, 'int'
     if isinstance(e, ast.IfExp):
         bc, c = cond(e.test, env, cx)
         b1, t1, ty1 = expr(e.body, env, cx)
@@ -430,7 +474,7 @@ def expr(e, env, cx, expect=None):
             raise Unsupported('%s(%s)' % (f, ty))
         if f == 'len' and len(e.args) == 1:
             b, t, ty = expr(e.args[0], env, cx)
-            if ty in ('bytes', 'listint', 'listentry'):
+            if ty in ('bytes', 'listint', 'listentry', 'hexstr'):
                 return b, '((%s).length : Int)' % t, 'int'
         if f == 'int' and len(e.args) == 1:
             b, t, ty = expr(e.args[0], env, cx)
@@ -1050,7 +1094,7 @@ def translate_function(fn, consts, cls=None, funcs=None, lean_name=None):
             env['self'] = 'self:' + cls['name']
             continue
         ann = ast.unparse(a.annotation) if a.annotation is not None else ''
-        ty = {'tuple[bytes, bytes]': 'entry', 'HeaderWeaklyTyped': 'header', 'bool': 'bool', 'HeaderTuple': 'header', 'int': 'int', 'bytes': 'bytes', 'bytearray': 'bytes', 'bytes | bytearray': 'bytes', 'memoryview': 'bytes', 'bytes | bytearray | None': 'bytes', 'bytes | None': 'bytes'}.get(ann)
+        ty = {'bytes | None': 'bytes', 'list[int]': 'listint', 'tuple[bytes, bytes]': 'entry', 'HeaderWeaklyTyped': 'header', 'bool': 'bool', 'HeaderTuple': 'header', 'int': 'int', 'bytes': 'bytes', 'bytearray': 'bytes', 'bytes | bytearray': 'bytes', 'memoryview': 'bytes', 'bytes | bytearray | None': 'bytes', 'bytes | None': 'bytes'}.get(ann)
         if ty is None:
             raise Unsupported('parameter %s: %s' % (a.arg, ann))
         env[a.arg] = ty
@@ -1251,6 +1295,11 @@ ENC_PRELUDE = [
     '  .ok (self, Impl.huffEncode Gen.codes b)', '']
 
 UNITS = {
+    'SrcHuffEnc': {'module': 'hpack.huffman', 'rel': 'hpack/huffman.py', 'functions': [], 'cls': 'HuffmanEncoder',
+                   'methods': ['encode'],
+                   'init': {'huffman_code_list': ('listint', 'huffman_code_list', 'huffman_code_list'),
+                            'huffman_code_list_lengths': ('listint', 'huffman_code_list_lengths', 'huffman_code_list_lengths')},
+                   'init_params': '(huffman_code_list : List Int) (huffman_code_list_lengths : List Int) '},
     'SrcEnc': {'module': 'hpack.hpack', 'rel': 'hpack/hpack.py', 'functions': [], 'cls': 'Encoder',
                'methods': ['header_table_size.getter', 'header_table_size.setter', '_encode_indexed', '_encode_literal',
                            '_encode_indexed_literal', '_encode_table_size_change', 'add'],
